@@ -217,18 +217,38 @@ void check_free(Ctx &c, const Shape &s, int mode, int target, int mis)
 static const char *DEEP_NAME[] = { "left chain of 65537 nodes", "right chain of 65540 nodes", "zig-zag chain of 70001 nodes",
 				   "right chain of 65536 nodes each with a left leaf (131072 nodes)", "left chain of 131075 nodes",
 				   "left-leaning list spine of 65537 list nodes", "right-leaning list spine of 65537 list nodes",
-				   "left-leaning list spine of 65536 list nodes", "left-leaning list spine of 300 list nodes" };
-static const int DEEP_N = 9;
+				   "left-leaning list spine of 65536 list nodes", "left-leaning list spine of 300 list nodes",
+				   "root whose left child heads a right chain of 5000 nodes", "root whose left child heads a right chain of 70000 nodes",
+				   "root whose right child heads a left chain of 5000 nodes",
+				   "right chain of 300 nodes, each with a left child that heads a right chain of 300" };
+static const int DEEP_N = 13;
 
 static void deep_case(Ctx &c, int which)
 {
 	c.note("deep case %d: %s", which, DEEP_NAME[which]);
 	c.cls("deep-shape (depth >= 65536)");
 	c.nontrivial = true;
-	if (which <= 4) {
+	if (which <= 4 || which >= 9) {
 		Shape s;
 		int p = -1;
-		if (which == 0 || which == 4)
+		if (which == 9 || which == 10) { // the in-order predecessor of the root is thousands of right links below its left child
+			int root = s.add(-1, 0);
+			p = s.add(root, 0);
+			for (int i = 0, n = which == 9 ? 5000 : 70000; i < n; i++)
+				p = s.add(p, 1);
+		} else if (which == 11) {
+			int root = s.add(-1, 0);
+			p = s.add(root, 1);
+			for (int i = 0; i < 5000; i++)
+				p = s.add(p, 0);
+		} else if (which == 12) {
+			for (int i = 0; i < 300; i++) {
+				p = s.add(p, 1);
+				int q = s.add(p, 0);
+				for (int k = 0; k < 300; k++)
+					q = s.add(q, 1);
+			}
+		} else if (which == 0 || which == 4)
 			for (int i = 0, n = which == 0 ? 65537 : 131075; i < n; i++)
 				p = s.add(p, 0);
 		else if (which == 1)
@@ -449,7 +469,10 @@ void h_run(Ctx &c)
 		};
 		int root = -1;
 		std::vector<int> exp;
-		if (len == 0) {
+		if (len == 0 && c.feat(2) && t.flip()) {
+			root = add(1); // a single, empty list node: no elements
+			c.cls("right-leaning-spine-ending-in-an-empty-list-node");
+		} else if (len == 0) {
 			root = add(0); // a single element
 			exp.push_back(root);
 		} else if (len > 0) {
@@ -474,13 +497,18 @@ void h_run(Ctx &c)
 					ls.push_back(add(1));
 					es.push_back(add(0));
 				}
-				int last = add(0);
+				// the spine ends in an element, as the header draws it, or in an empty list node (a nil-terminated list)
+				bool nil_end = c.feat(2) && t.flip();
+				int last = add(nil_end ? 1 : 0);
 				for (int k = 0; k < len; k++) {
 					L[ls[k]] = es[k];
 					R[ls[k]] = k + 1 < len ? ls[k + 1] : last;
 					exp.push_back(es[k]);
 				}
-				exp.push_back(last);
+				if (!nil_end)
+					exp.push_back(last);
+				else
+					c.cls("right-leaning-spine-ending-in-an-empty-list-node");
 				root = ls[0];
 			}
 		}
